@@ -20,7 +20,7 @@ PROPERTY = 'C19'
 RULE = ('3-node designs: all 5^3 assignments of the edge profiles {large +, large -, small +, no effect, constant} (6^3 with '
         '"constant difference" for the paired design), group sizes (2,2),(2,3),(3,2) unpaired and (3,3) paired, threshold in '
         '{0.5, 3} and a threshold exactly equal to an attained statistic (profile with t = 2.0), tail in {both,left,right}; k=1 with the full relabelling menu (24 / 120 orders, 8 sign patterns), k=2 for '
-        '(2,2) on a subset, 6-7 node designs with three observed components, 9-node two-component designs (thorough: 4-node designs on a fixed profile set); non-trivial = configuration with at least one '
+        '(2,2) on a subset, 6-7 node designs with three observed components, 9-node two-component designs (thorough: 4-node designs on a fixed profile set); subject stacks also as uint16 / int16 / uint8 / int64 arrays on integer-valued profiles; non-trivial = configuration with at least one '
         'observed component (not rejected as "unsuitable threshold") and >= 2 distinct null values over the relabellings')
 ASSUMPTIONS = ['t statistics re-derived from their definitions in this file (zero pooled variance => 0 as the library '
                'documents by construction; paired zero variance follows IEEE: +-inf exceeds, nan does not)',
@@ -80,6 +80,14 @@ def catalogue(thorough):
                          'k': 2, 'verbose': True})
             cfgs.append({'n': 3, 'profile': prof, 'nx': 3, 'ny': 3, 'thresh': 0.5, 'tail': tail, 'paired': True,
                          'k': 2, 'verbose': True})
+    # subject stacks stored in narrow / unsigned integer types (streamline counts): same statistics as for float64
+    for prof in ('PPP', 'PNZ', 'NNZ', 'PZC', 'NPQ', 'DNZ', 'PNE'):
+        for dt in ('uint16', 'int16', 'uint8', 'int64'):
+            for tail in TAILS:
+                cfgs.append({'n': 3, 'profile': prof, 'nx': 2, 'ny': 3, 'thresh': 0.5, 'tail': tail, 'paired': False,
+                             'k': 1, 'dtype': dt})
+                cfgs.append({'n': 3, 'profile': prof, 'nx': 3, 'ny': 3, 'thresh': 0.5, 'tail': tail, 'paired': True,
+                             'k': 1, 'dtype': dt})
     four = ['PPZZNN', 'PPPZZZ', 'PZPZSZ', 'PNCZSP', 'SSSSSS', 'PZZZZP', 'NNZZCC', 'PPNNZZ']
     if thorough:
         four += [''.join(p) for p in itertools.product('PNZ', repeat=6)][::5]
@@ -264,8 +272,9 @@ def explore(cfg):
     x, y, _, _ = mats(cfg)
 
     def call(rng):
-        return bct.nbs_bct(x.copy(), y.copy(), cfg['thresh'], k=cfg['k'], tail=cfg['tail'], paired=cfg['paired'],
-                           verbose=bool(cfg.get('verbose', False)), seed=rng)
+        dt = cfg.get('dtype')
+        return bct.nbs_bct(x.astype(dt) if dt else x.copy(), y.astype(dt) if dt else y.copy(), cfg['thresh'], k=cfg['k'],
+                           tail=cfg['tail'], paired=cfg['paired'], verbose=bool(cfg.get('verbose', False)), seed=rng)
     nulls = set()
     ex = Explorer(call, vec_unit_points=(0.25, 0.75), max_executions=100000)
 
@@ -356,8 +365,9 @@ def replay(rec):
     x, y, _, _ = mats(cfg)
 
     def call(rng):
-        return bct.nbs_bct(x.copy(), y.copy(), cfg['thresh'], k=cfg['k'], tail=cfg['tail'], paired=cfg['paired'],
-                           verbose=bool(cfg.get('verbose', False)), seed=rng)
+        dt = cfg.get('dtype')
+        return bct.nbs_bct(x.astype(dt) if dt else x.copy(), y.astype(dt) if dt else y.copy(), cfg['thresh'], k=cfg['k'],
+                           tail=cfg['tail'], paired=cfg['paired'], verbose=bool(cfg.get('verbose', False)), seed=rng)
     with quiet():
         status, value, _ = replay_answers(call, case['answers'], vec_unit_points=(0.25, 0.75))
     judge(t, cfg, status, value, list(getattr(replay_answers, 'last_values', [])), lambda: case)
